@@ -109,7 +109,8 @@ def specs(tier):
                                         'STOPPED', 'NOTSTARTED'],
                             stale=True, pushes=1 if skip else 0,
                             admin=[['force_merge']]))
-        out.append(spec('skipq-%s-bypass' % layout, layout, d1, d2, skip=True,
+        out.append(spec('skipq-%s-%s-bypass' % (
+            layout, 'same' if d1 == d2 else 'diff'), layout, d1, d2, skip=True,
                         depth=8, comments=bypass, stale=True))
     return out
 
